@@ -74,6 +74,13 @@ REGISTRY["C11"] = {
             "instant incl. the cycle of its notification; oracle: counting automaton over the log (no spurious, no lost, waiting order, lock held on return, refusals without the lock).",
     "note": "Trusted: z3, CrossHair, CPython's C Task/Future/deque, VLoop stubs. Outside: >3 waiters, >2 notifications, uvloop, trio.",
 }
+_SCOPE_TEXT = ("Bounded symbolic model checking of the real CancelScope code (__enter__/__exit__/cancel/_deliver_cancellation/_restart_cancellation_in_parent/shield and "
+               "deadline setters) on the real asyncio loop logic with a virtual clock: nested scopes (depth <=3) with symbolic shield flags, sleep durations, deadlines and "
+               "the instants (tick + cycle offset) of environment cancel()/shield/deadline assignments; every feasible ordering is executed once and judged by an independent "
+               "reference semantics (effective cancellation = cancelled ancestor reachable without crossing a shield) evaluated on the observation log. ")
+_SCOPE_NOTE = "Trusted: z3, CrossHair, CPython's C Task/Future, VLoop stubs, the reference semantics. Outside: depth >3, more than 2 cancels + 1 toggle, non-integer times, uvloop, trio."
+REGISTRY["C03"] = {"harnesses": ["symx.harness.c03_level"], "level": "model_checking", "text": _SCOPE_TEXT + "C03 clauses: liveness (no deadlock), every checkpoint in an effectively cancelled scope raises, delivery latency <= 4 cycles, re-delivery after a swallowed cancellation.", "note": _SCOPE_NOTE}
+REGISTRY["C04"] = {"harnesses": ["symx.harness.c04_contain"], "level": "model_checking", "text": _SCOPE_TEXT + "C04 clauses: an operation is interrupted only while its scope is effectively cancelled; absorb iff own cancel and no visible cancelled ancestor; cancelled_caught exact.", "note": _SCOPE_NOTE}
 
 NOT_APPLICABLE = {
     "C17": "TLS record framing/fragmentation/truncation happens inside OpenSSL (ssl.SSLObject/MemoryBIO, C code): no available engine can execute it symbolically, and a stub would make the check a statement about the stub (DESIGN.md section 3, C17).",
